@@ -366,6 +366,9 @@ func (r *rec) jobSleep(j int, d time.Duration, fail bool, extra ev) func(context
 }
 
 func run(args []string) error {
+	if len(args) >= 1 && args[0] == "aimtest" {
+		return aimTest(h.Flags(args[1:]))
+	}
 	if len(args) < 1 || args[0] != "record" {
 		return fmt.Errorf("usage: C33 record --num N --trace f")
 	}
